@@ -15,12 +15,19 @@ use a2kit::img::{names, DiskImage, NibbleError};
 use std::collections::BTreeMap;
 
 const SKEW13: [u8; 13] = [0, 10, 7, 4, 1, 11, 8, 5, 2, 12, 9, 6, 3];
-const KINDS: [&str; 3] = ["nib", "woz1", "woz2"];
+const KINDS: [&str; 4] = ["nib", "woz1", "woz2", "nb2"];
 
 fn make(kind: &str, six: bool, vol: u8) -> Box<dyn DiskImage> {
     let k = if six { names::A2_DOS33_KIND } else { names::A2_DOS32_KIND };
     match kind {
         "nib" => Box::new(a2kit::img::nib::Nib::create(vol, k)),
+        "nb2" => {
+            // NB2 = 35 tracks of 6384 bytes; only `from_bytes` makes one: cut a created NIB's tracks
+            let nib = a2kit::img::nib::Nib::create(vol, k).to_bytes();
+            let mut b: Vec<u8> = Vec::new();
+            for t in 0..35 { b.extend_from_slice(&nib[t * 6656..t * 6656 + 6384]); }
+            Box::new(a2kit::img::nib::Nib::from_bytes(&b).expect("nb2 from_bytes"))
+        }
         "woz1" => Box::new(a2kit::img::woz1::Woz1::create(vol, k)),
         _ => Box::new(a2kit::img::woz2::Woz2::create(vol, k)),
     }
@@ -30,14 +37,15 @@ fn make(kind: &str, six: bool, vol: u8) -> Box<dyn DiskImage> {
 fn layout(kind: &str) -> (usize, usize, usize) {
     match kind {
         "nib" => (0, 6656, 6656),
+        "nb2" => (0, 6384, 6384),
         "woz1" => (256, 6656, 6646),
         _ => (1536, 13 * 512, 13 * 512),
     }
 }
 
 fn bit_count(kind: &str, six: bool) -> usize {
-    let (sync, secs, nibs) = match (kind, six) { ("nib", true) => (8, 16, 343), ("nib", false) => (8, 13, 411), (_, true) => (10, 16, 343), (_, false) => (9, 13, 411) };
-    if kind == "nib" { 6656 * 8 } else { 40 * sync + secs * (14 * 8 + 10 * sync + (6 + nibs) * 8 + 20 * sync) }
+    let (sync, secs, nibs) = match (kind, six) { ("nib" | "nb2", true) => (8, 16, 343), ("nib" | "nb2", false) => (8, 13, 411), (_, true) => (10, 16, 343), (_, false) => (9, 13, 411) };
+    if kind == "nib" { 6656 * 8 } else if kind == "nb2" { 6384 * 8 } else { 40 * sync + secs * (14 * 8 + 10 * sync + (6 + nibs) * 8 + 20 * sync) }
 }
 
 fn raw_tracks(img: &mut Box<dyn DiskImage>, kind: &str) -> Vec<Vec<u8>> {
@@ -91,8 +99,8 @@ fn latch(buf: &[u8], n: usize, start: usize) -> Vec<u8> {
 fn dec44(a: u8, b: u8) -> u8 { ((a << 1) | 1) & b }
 
 fn new_case(ctx: &mut Ctx, idx: usize, rng: &mut Rng) {
-    let kind = KINDS[idx % 3];
-    let six = idx / 3 == 0;
+    let kind = KINDS[idx % 4];
+    let six = idx / 4 == 0;
     let vol = rng.byte();
     let desc = format!("idx={} new {} {} vol={}", idx, kind, if six { "16" } else { "13" }, vol);
     let sig = |s: &str| format!("c08/{}/{}", kind, s);
@@ -101,11 +109,11 @@ fn new_case(ctx: &mut Ctx, idx: usize, rng: &mut Rng) {
         let bytes = img.to_bytes();
         let tracks = raw_tracks(&mut img, kind);
         let (tmap, ents, off): (Vec<u8>, Vec<(usize, usize, usize)>, usize) = match kind {
-            "nib" => (vec![], vec![], 0),
+            "nib" | "nb2" => (vec![], vec![], 0),
             "woz1" => (bytes[88..248].to_vec(), (0..35).map(|t| { let e = 256 + t * 6656 + 6646; (0, 0, u16::from_le_bytes([bytes[e + 2], bytes[e + 3]]) as usize) }).collect(), 0),
             _ => (bytes[88..248].to_vec(), (0..160).map(|t| { let e = 256 + t * 8; (u16::from_le_bytes([bytes[e], bytes[e + 1]]) as usize, u16::from_le_bytes([bytes[e + 2], bytes[e + 3]]) as usize, u32::from_le_bytes([bytes[e + 4], bytes[e + 5], bytes[e + 6], bytes[e + 7]]) as usize) }).collect(), 1536),
         };
-        let total: usize = match kind { "nib" => bytes.len(), "woz1" => 35 * 6646, _ => bytes.len() - 1536 };
+        let total: usize = match kind { "nib" | "nb2" => bytes.len(), "woz1" => 35 * 6646, _ => bytes.len() - 1536 };
         let ent_s = if ents.is_empty() { "-".to_string() } else { ents.iter().map(|e| format!("{}.{}.{}", e.0, e.1, e.2)).collect::<Vec<_>>().join(",") };
         let ans = format!("tmap:{};ents:{};off:{};len:{};trk:{}", hx(&tmap), ent_s, off, total,
             tracks.iter().map(|t| fnv(t).to_string()).collect::<Vec<_>>().join(","));
@@ -140,7 +148,7 @@ fn new_case(ctx: &mut Ctx, idx: usize, rng: &mut Rng) {
                 }
             }
         }
-        if kind != "nib" {
+        if kind != "nib" && kind != "nb2" {
             // whole tracks map to pairwise different entries, each with bits
             let idxs: Vec<u8> = (0..35).map(|t| tmap[4 * t]).collect();
             let mut s = idxs.clone(); s.sort(); s.dedup();
@@ -172,7 +180,7 @@ fn new_case(ctx: &mut Ctx, idx: usize, rng: &mut Rng) {
 }
 
 fn seq_case(ctx: &mut Ctx, idx: usize, rng: &mut Rng) {
-    let kind = KINDS[idx % 3];
+    let kind = KINDS[idx % 4];
     let six = rng.chance(60);
     let vol = rng.byte();
     let nsec = if six { 16 } else { 13 };
@@ -192,11 +200,12 @@ fn seq_case(ctx: &mut Ctx, idx: usize, rng: &mut Rng) {
         // operation starts somewhere else on the track (NIB cannot re-synchronise: whole bytes only)
         let mut aligned = true;
         if rng.chance(50) {
-            let k = if kind == "nib" { 8 * rng.below(6656) } else if rng.chance(50) { let s = if six { 10 } else { 9 }; n - s * rng.below(21) } else { aligned = false; rng.below(n) };
+            let k = if kind == "nib" || kind == "nb2" { 8 * rng.below(n / 8) } else if rng.chance(50) { let s = if six { 10 } else { 9 }; n - s * rng.below(21) } else { aligned = false; rng.below(n) };
             for t in 0..35 {
                 let mut b = img.get_track_buf(t, 0).expect("track buf");
                 rotate_bits(&mut b, n, k % n);
-                img.set_track_buf(t, 0, &b).expect("set track buf");
+                // a buffer of the track's own size must be accepted
+                if img.set_track_buf(t, 0, &b).is_err() { fails.push(("track-buf".into(), sig("set-track-buf-refused"))); }
             }
             ops.push(format!("rot:{}", k));
             desc += &format!("ROT{} ", k);
@@ -288,13 +297,100 @@ fn seq_case(ctx: &mut Ctx, idx: usize, rng: &mut Rng) {
     }
 }
 
+/// Seam sweep (idx 50..57): the track is rotated so that the DATA nibbles of one sector straddle the end of
+/// the track buffer, the nibbles starting `1606 + j` bits before the end, for every bit alignment j = 0..7
+/// (13-sector WOZ tracks have 48694 bits: not a multiple of 8, so the last byte of the track is partial).
+/// For each alignment: write the straddling sector, read it back, read another sector of the track and the
+/// same sector of another track; finally every sector of the track.  Real vs model + reference oracle.
+fn sweep_case(ctx: &mut Ctx, idx: usize, rng: &mut Rng) {
+    let k = idx - 50;
+    let kind = ["woz1", "woz2"][k % 2];
+    let six = (k / 2) % 2 == 0;
+    let slot = if k / 4 == 0 { 0 } else if six { 9 } else { 7 };
+    let vol = rng.byte();
+    let nsec = if six { 16 } else { 13 };
+    let n = bit_count(kind, six);
+    let (sync, nibs) = if six { (10, 343) } else { (9, 411) };
+    let sec_bits = 14 * 8 + 10 * sync + (6 + nibs) * 8 + 20 * sync;
+    let field = 40 * sync + slot * sec_bits + 14 * 8 + 10 * sync + 24; // first data nibble of the slot's sector
+    let sid = if six { slot } else { SKEW13[slot] as usize };
+    let t = rng.below(35);
+    let t2 = (t + 1 + rng.below(34)) % 35;
+    let other = (sid + 1 + rng.below(nsec - 1)) % nsec;
+    let desc = format!("idx={} sweep {} {} vol={} track={} sector={} (slot {}) other={} track2={}", idx, kind, nsec, vol, t, sid, slot, other, t2);
+    let sig = |s: &str| format!("c08/{}/{}", kind, s);
+    let res = guarded(|| {
+        let mut fails: Vec<(String, String)> = Vec::new();
+        let mut img = make(kind, six, vol);
+        let mut ops: Vec<String> = Vec::new();
+        let mut ans: Vec<String> = Vec::new();
+        let mut expect: BTreeMap<(usize, usize), Vec<u8>> = BTreeMap::new();
+        let digest = |img: &mut Box<dyn DiskImage>| combine(&raw_tracks(img, kind).iter().map(|t| fnv(t)).collect::<Vec<_>>());
+        for j in 0..8 {
+            let rot = if j == 0 { (field + 1606) % n } else { 1 };
+            for c in [t, t2] {
+                let mut b = img.get_track_buf(c, 0).expect("track buf");
+                rotate_bits(&mut b, n, rot);
+                if img.set_track_buf(c, 0, &b).is_err() { fails.push(("track-buf".into(), sig("set-track-buf-refused"))); }
+            }
+            ops.push(format!("rott:{}:{}:{}", rot, t, t2));
+            ans.push(format!("@{}", digest(&mut img)));
+            let dat = rng.bytes(256);
+            ops.push(format!("w:{}:0:{}:{}", t, sid, hx(&dat)));
+            let before = raw_tracks(&mut img, kind);
+            match img.write_sector(t, 0, sid, &dat) {
+                Ok(()) => { expect.insert((t, sid), dat.clone()); ans.push(format!("ok@{}", digest(&mut img))); }
+                Err(e) => { fails.push(("valid-accepted".into(), sig(&format!("valid-write-refused/{}", err_str(&e))))); ans.push(format!("{}@{}", err_str(&e), digest(&mut img))); }
+            }
+            let after = raw_tracks(&mut img, kind);
+            for c in 0..35 { if c != t && before[c] != after[c] { fails.push(("frame-across-tracks".into(), sig("frame-across-tracks"))); } }
+            if before[t][(n + 7) / 8..] != after[t][(n + 7) / 8..] { fails.push(("frame-in-track".into(), sig("write-outside-bit-count"))); }
+            if n % 8 != 0 { let m = 0xffu8 >> (n % 8); if (before[t][n / 8] ^ after[t][n / 8]) & m != 0 { fails.push(("frame-in-track".into(), sig("write-outside-bit-count"))); } }
+            for (c, s) in [(t, sid), (t, other), (t2, sid)] {
+                ops.push(format!("r:{}:0:{}", c, s));
+                let want = expect.get(&(c, s)).cloned().unwrap_or(vec![0u8; 256]);
+                match img.read_sector(c, 0, s) {
+                    Ok(v) => { if v != want { fails.push((if (c, s) == (t, sid) { "read-after-write" } else { "frame-in-track" }.into(), sig(if (c, s) == (t, sid) { "read-after-write" } else { "unwritten-sector-changed" }))); } ans.push(format!("ok:{}", hx(&v))); }
+                    Err(e) => { fails.push((if (c, s) == (t, sid) { "read-after-write" } else { "valid-accepted" }.into(), sig(&format!("valid-read-refused/{}", err_str(&e))))); ans.push(err_str(&e)); }
+                }
+            }
+        }
+        for s in 0..nsec {
+            let want = expect.get(&(t, s)).cloned().unwrap_or(vec![0u8; 256]);
+            match img.read_sector(t, 0, s) {
+                Ok(v) => if v != want { fails.push(("final-sweep".into(), sig(if s == sid { "read-after-write" } else { "frame-in-track" }))); },
+                Err(e) => fails.push(("final-sweep".into(), sig(&format!("valid-read-refused/{}", err_str(&e))))),
+            }
+        }
+        (format!("c08trk seq {} {} {} {}", kind, six as u8, vol, ops.join(";")), ans.join(";"), fails)
+    });
+    match res {
+        Ok((req, ans, mut fails)) => {
+            ctx.out.q(&req, &ans);
+            fails.sort(); fails.dedup();
+            if fails.is_empty() { ctx.out.oracle(true, "seam-sweep", "-", &desc); }
+            for (o, s) in &fails { ctx.out.oracle(false, o, s, &desc); }
+            ctx.out.sample(&desc);
+            ctx.out.count(&format!("sweep:{}/{}", kind, nsec));
+            ctx.out.case(desc.as_bytes(), true);
+        }
+        Err(p) => { ctx.out.oracle(false, "no-panic", &format!("panic:{}", panic_site(&p)), &desc); ctx.out.case(desc.as_bytes(), false); }
+    }
+}
+
 pub fn run(ctx: &mut Ctx) {
     let mut rng = Rng::new(ctx.seed ^ 0xC08_7124);
-    for idx in 0..6 {
+    for idx in 0..8 {
         let mut r = rng.fork(idx as u64);
         if ctx.out.wants(idx) { new_case(ctx, idx, &mut r); }
     }
-    let nseq = ctx.n(24, 300);
+    // seam sweep: WOZ1/WOZ2 x 16/13 sectors x two sector slots, all 8 bit alignments each
+    for k in 0..8 {
+        let idx = 50 + k;
+        let mut r = rng.fork(idx as u64);
+        if ctx.out.wants(idx) { sweep_case(ctx, idx, &mut r); }
+    }
+    let nseq = ctx.n(20, 300);
     for k in 0..nseq {
         let idx = 100 + k;
         let mut r = rng.fork(idx as u64);
